@@ -108,6 +108,9 @@ Section AMapLemmas.
   Qed.
 End AMapLemmas.
 
+Lemma firstn_In_sub {A} (l : list A) k x : In x (firstn k l) -> In x l.
+Proof. revert k; induction l as [|a l IH]; intros k H; destruct k; cbn in *; try contradiction; destruct H; auto. right; eauto. Qed.
+
 Lemma forallb_impl {A} (f g : A -> bool) l :
   (forall x, In x l -> f x = true -> g x = true) -> forallb f l = true -> forallb g l = true.
 Proof.
@@ -963,4 +966,73 @@ Lemma delete_data_refuted :
             xobserve w_conf (apply_xs w_x (firstn k ws)) <> xobserve w_conf (apply_xs w_x ws).
 Proof.
   split; [vm_compute; reflexivity|]. cbn zeta. exists 1%nat. split; vm_compute; discriminate.
+Qed.
+
+(* ---- instance deletion with the metadata saved first is atomic also with the data store ---- *)
+Lemma batches_meta ws : forall x iid,
+  (forall w, In w ws -> exists n, w = XDeleteBatch iid n) -> x_meta (apply_xs x ws) = x_meta x.
+Proof.
+  induction ws as [|w ws IH]; intros x iid Hall; [reflexivity|].
+  destruct (Hall w (or_introl eq_refl)) as [n ->]. cbn [apply_xs fold_left].
+  change (fold_left apply_x ws ?y) with (apply_xs y ws).
+  rewrite (IH _ iid (fun w' Hw => Hall w' (or_intror Hw))). reflexivity.
+Qed.
+
+Lemma batches_kv_other ws : forall x iid j,
+  (forall w, In w ws -> exists n, w = XDeleteBatch iid n) -> j <> iid ->
+  aget j (x_kv (apply_xs x ws)) = aget j (x_kv x).
+Proof.
+  induction ws as [|w ws IH]; intros x iid j Hall Hne; [reflexivity|].
+  destruct (Hall w (or_introl eq_refl)) as [n ->]. cbn [apply_xs fold_left].
+  change (fold_left apply_x ws ?y) with (apply_xs y ws).
+  rewrite (IH _ iid j (fun w' Hw => Hall w' (or_intror Hw)) Hne). cbn [apply_x x_kv].
+  now apply aget_aset_neq.
+Qed.
+
+Lemma xobserve_kv_irrelevant C x y iid :
+  x_meta y = x_meta x -> (forall j, j <> iid -> aget j (x_kv y) = aget j (x_kv x)) ->
+  (forall m wr, recover C (x_meta x) = Ok (m, wr) ->
+     forall ib ni, In ib (m_repos m) -> In ni (pr_data (snd ib)) -> snd ni <> iid) ->
+  xobserve C y = xobserve C x.
+Proof.
+  intros Hm Hk Hfree. unfold xobserve. rewrite Hm.
+  destruct (recover C (x_meta x)) as [[m wr]| |] eqn:Hr; try reflexivity.
+  f_equal. apply map_ext_in. intros ib Hib. f_equal. apply map_ext_in. intros ni Hni.
+  rewrite Hk; [reflexivity|]. eapply Hfree; eauto.
+Qed.
+
+(* every prefix of the repaired write list shows the state before or the state after, provided the
+   deleted instance's id is used by no instance that remains (instance ids are unique: C12) *)
+Lemma delete_data_fixed_atomic C x m rid name n b r iid k :
+  aget rid (m_repos m) = Some r -> aget name (pr_data r) = Some iid ->
+  let ws := delete_data_writes_fixed m rid name n b in
+  (forall mr wr, recover C (x_meta (apply_xs x ws)) = Ok (mr, wr) ->
+     forall ib ni, In ib (m_repos mr) -> In ni (pr_data (snd ib)) -> snd ni <> iid) ->
+  xobserve C (apply_xs x (firstn k ws)) = xobserve C x \/
+  xobserve C (apply_xs x (firstn k ws)) = xobserve C (apply_xs x ws).
+Proof.
+  intros Hr Hd. unfold delete_data_writes_fixed. rewrite Hr, Hd. unfold op_delete_data. rewrite Hr.
+  assert (Hmem : amem name (pr_data r) = true) by (unfold amem; now rewrite Hd).
+  rewrite Hmem. cbn [negb snd map app].
+  set (w0 := XMeta (WRepo rid (set_data r (adel name (pr_data r))))).
+  set (batches := if n <=? b then [XDeleteBatch iid n] else [XDeleteBatch iid b; XDeleteBatch iid (n - b)]).
+  assert (Hb : forall w, In w batches -> exists q, w = XDeleteBatch iid q).
+  { intros w Hw. unfold batches in Hw. destruct (n <=? b); cbn in Hw; intuition eauto. }
+  assert (Hbk : forall w, In w (firstn k batches) -> exists q, w = XDeleteBatch iid q).
+  { intros w Hw. apply Hb. eapply firstn_In_sub; eauto. }
+  cbn zeta. intro Hfree. destruct k as [|k]; [left; reflexivity|]. right. cbn [firstn].
+  change (apply_xs x (w0 :: ?l)) with (apply_xs (apply_x x w0) l).
+  set (x1 := apply_x x w0) in *.
+  assert (Hbk' : forall w, In w (firstn k batches) -> exists q, w = XDeleteBatch iid q).
+  { intros w Hw. apply Hb. eapply firstn_In_sub; eauto. }
+  assert (Hfree1 : forall mr wr, recover C (x_meta x1) = Ok (mr, wr) ->
+     forall ib ni, In ib (m_repos mr) -> In ni (pr_data (snd ib)) -> snd ni <> iid).
+  { intros mr wr Hrec. apply (Hfree mr wr). change (apply_xs x (w0 :: batches)) with (apply_xs x1 batches).
+    rewrite (batches_meta batches x1 iid Hb). exact Hrec. }
+  rewrite (xobserve_kv_irrelevant C x1 (apply_xs x1 (firstn k batches)) iid); auto.
+  - symmetry. apply (xobserve_kv_irrelevant C x1 (apply_xs x1 batches) iid); auto.
+    + apply (batches_meta batches x1 iid Hb).
+    + intros j Hj. now apply (batches_kv_other batches x1 iid j Hb).
+  - apply (batches_meta _ x1 iid Hbk').
+  - intros j Hj. now apply (batches_kv_other _ x1 iid j Hbk').
 Qed.
